@@ -293,6 +293,111 @@ func init() {
 			})
 	}
 
+	// ---- reflect (only what key.go's typed accessors use) ----
+	// reflect.ValueOf(x) is modelled as x itself: a reflect.Value is the interface value it was made from.
+	reg("reflect.ValueOf", "the reflect.Value of an interface value is represented by that value", nil,
+		func(u *Unit, fr *Frame, st *State, x *ssa.Call, args []*Val) ([]*Val, *State) {
+			return one(u.reflectWrap(args[0].T)), st
+		})
+	kindTest := func(pred func(b *types.Basic) bool) func(u *Unit, v Term) Term {
+		return func(u *Unit, v Term) Term {
+			var ds []Term
+			for _, c := range u.eng.reg.sortedAnyCons() {
+				if b, ok := c.T.Underlying().(*types.Basic); ok && pred(b) {
+					ds = append(ds, Term{fmt.Sprintf("((_ is %s) %s)", c.Con, v.S), SBool})
+				}
+			}
+			return Or(ds...)
+		}
+	}
+	kindVal := func(pred func(b *types.Basic) bool, sort Sort, zero Term) func(u *Unit, v Term) Term {
+		return func(u *Unit, v Term) Term {
+			t := zero
+			for _, c := range u.eng.reg.sortedAnyCons() {
+				if b, ok := c.T.Underlying().(*types.Basic); ok && pred(b) {
+					t = Ite(Term{fmt.Sprintf("((_ is %s) %s)", c.Con, v.S), SBool}, App(sort, c.Sel, v), t)
+				}
+			}
+			return t
+		}
+	}
+	isStr := func(b *types.Basic) bool { return b.Info()&types.IsString != 0 }
+	isBoolK := func(b *types.Basic) bool { return b.Info()&types.IsBoolean != 0 }
+	reg("(reflect.Value).CanInt", "any_canint: the dynamic type's underlying type is a signed Go integer (named types included); for types the package never boxes an uninterpreted predicate of the type", nil,
+		func(u *Unit, fr *Frame, st *State, x *ssa.Call, args []*Val) ([]*Val, *State) {
+			return one(App(SBool, "any_canint", u.reflectUnwrap(args[0].T))), st
+		})
+	reg("(reflect.Value).CanUint", "any_canuint: the dynamic type's underlying type is an unsigned Go integer", nil,
+		func(u *Unit, fr *Frame, st *State, x *ssa.Call, args []*Val) ([]*Val, *State) {
+			return one(App(SBool, "any_canuint", u.reflectUnwrap(args[0].T))), st
+		})
+	reg("(reflect.Value).Int", "requires CanInt (panics otherwise); any_intval", nil,
+		func(u *Unit, fr *Frame, st *State, x *ssa.Call, args []*Val) ([]*Val, *State) {
+			v := u.reflectUnwrap(args[0].T)
+			cond := App(SBool, "any_canint", v)
+			u.panicObl(st, fr, x, "call", cond)
+			u.assume(st.pc, cond)
+			r := u.define("rint", App(SInt, "any_intval", v))
+			u.assume(st.pc, InRange(r, types.Typ[types.Int64]))
+			return one(r), st
+		})
+	reg("(reflect.Value).Uint", "requires CanUint (panics otherwise); any_uintval", nil,
+		func(u *Unit, fr *Frame, st *State, x *ssa.Call, args []*Val) ([]*Val, *State) {
+			v := u.reflectUnwrap(args[0].T)
+			cond := App(SBool, "any_canuint", v)
+			u.panicObl(st, fr, x, "call", cond)
+			u.assume(st.pc, cond)
+			r := u.define("ruint", App(SInt, "any_uintval", v))
+			u.assume(st.pc, InRange(r, types.Typ[types.Uint64]))
+			return one(r), st
+		})
+	reg("(reflect.Value).Kind", "the reflect.Kind of the dynamic type: String (24) / Bool (1) are pinned, every other kind is an uninterpreted function of the dynamic type that differs from those two", nil,
+		func(u *Unit, fr *Frame, st *State, x *ssa.Call, args []*Val) ([]*Val, *State) {
+			v := u.reflectUnwrap(args[0].T)
+			k := u.fresh("kind", SInt)
+			isS, isB := kindTest(isStr)(u, v), kindTest(isBoolK)(u, v)
+			known := Not(Term{"((_ is A_other) " + v.S + ")", SBool})
+			u.assume(st.pc, And(Le(IntLit(0), k), Le(k, IntLit(26)), Implies(isS, Eq(k, IntLit(24))), Implies(isB, Eq(k, IntLit(1))),
+				Implies(And(known, Not(isS)), Neq(k, IntLit(24))), Implies(And(known, Not(isB)), Neq(k, IntLit(1))),
+				Implies(Eq(v, AnyNil), Eq(k, IntLit(0)))))
+			return one(k), st
+		})
+	reg("(reflect.Value).Bytes", "requires a byte-slice kind (any_isbytes) and panics otherwise; when the caller has deferred a recover(), the panic is followed into the recover path; the result is any_bytesval", nil,
+		func(u *Unit, fr *Frame, st *State, x *ssa.Call, args []*Val) ([]*Val, *State) {
+			v := u.reflectUnwrap(args[0].T)
+			cond := u.define("isbytes", App(SBool, "any_isbytes", v))
+			top := fr
+			if len(top.defers) > 0 && top.fn.Recover != nil {
+				ps := st.Clone()
+				ps.pc = u.define("pc", And(st.pc, Not(cond)))
+				top.panicStates = append(top.panicStates, ps)
+				st.pc = u.define("pc", And(st.pc, cond))
+			} else {
+				u.panicObl(st, fr, x, "call", cond)
+				u.assume(st.pc, cond)
+			}
+			r := u.define("rbytes", App(SSlice, "any_bytesval", v))
+			u.assume(st.pc, App(SBool, "slice_ok", r, u.comp(st, "alloc")))
+			return one(r), st
+		})
+	reg("(reflect.Value).String", "for Kind String the string value (otherwise a descriptive text)", nil,
+		func(u *Unit, fr *Frame, st *State, x *ssa.Call, args []*Val) ([]*Val, *State) {
+			v := u.reflectUnwrap(args[0].T)
+			sv := kindVal(isStr, SStr, Term{"str_empty", SStr})(u, v)
+			r := u.fresh("rstr", SStr)
+			u.assume(st.pc, Implies(kindTest(isStr)(u, v), Eq(r, sv)))
+			u.assume(st.pc, u.typeInv(r, types.Typ[types.String], u.comp(st, "alloc")))
+			return one(r), st
+		})
+	reg("(reflect.Value).Bool", "requires Kind Bool (panics otherwise); the boolean value", nil,
+		func(u *Unit, fr *Frame, st *State, x *ssa.Call, args []*Val) ([]*Val, *State) {
+			v := u.reflectUnwrap(args[0].T)
+			isB := kindTest(isBoolK)(u, v)
+			r := u.fresh("rbool", SBool)
+			u.assume(st.pc, Implies(isB, Eq(r, kindVal(isBoolK, SBool, False)(u, v))))
+			return one(r), st
+		})
+
 	// ---- fxamacker/cbor option constructors ----
 	reg("(github.com/fxamacker/cbor/v2.EncOptions).EncMode", "returns enc_mode_of(options); the error is nil exactly when enc_opts_valid(options) (assumed to hold for the options configured in init)", nil,
 		func(u *Unit, fr *Frame, st *State, x *ssa.Call, args []*Val) ([]*Val, *State) {
@@ -491,4 +596,32 @@ func (u *Unit) optsInRange(t types.Type, o Term) Term {
 		cs = append(cs, Not(And(Eq(tagsMd, IntLit(1)), Eq(timeTag, IntLit(1)))))
 	}
 	return And(cs...)
+}
+
+// reflect.Value is a struct in the SSA; the model keeps the interface value in an uninterpreted wrapper.
+func (u *Unit) reflectWrap(a Term) Term {
+	rs := u.eng.reflectValueSort()
+	u.eng.declareFun("reflect_of", []Sort{SAny}, rs)
+	u.eng.declareFun("reflect_val", []Sort{rs}, SAny)
+	w := App(rs, "reflect_of", a)
+	u.assume(True, Eq(App(SAny, "reflect_val", w), a))
+	return w
+}
+
+func (u *Unit) reflectUnwrap(w Term) Term {
+	rs := u.eng.reflectValueSort()
+	u.eng.declareFun("reflect_of", []Sort{SAny}, rs)
+	u.eng.declareFun("reflect_val", []Sort{rs}, SAny)
+	return App(SAny, "reflect_val", w)
+}
+
+func (e *Engine) reflectValueSort() Sort {
+	for _, p := range e.allPackages() {
+		if p.Path() == "reflect" {
+			if o := p.Scope().Lookup("Value"); o != nil {
+				return e.reg.SortOf(o.Type())
+			}
+		}
+	}
+	panic("reflect.Value not found")
 }
